@@ -403,7 +403,7 @@ def witness(f, which, claims, claim, budget=200000):
                     bad = "vector registers written and not cleared at exit: " + ", ".join(
                         "%s%d" % ({1: "xmm", 2: "ymm", 3: "zmm"}[s[r]], r) for r in dirty)
         if bad:
-            return {"blocks": ["%x" % f.blocks[x]["addr"] for x in path2], "exit": t[0], "problem": bad,
+            return {"blocks": ["%x" % f.blocks[x]["addr"] for x in path2], "path_idx": list(path2), "exit": t[0], "problem": bad,
                     "exit_block": "%x" % blk["addr"]}
         for nx in reversed(succs(t)):
             if path2.count(nx) < 2:
@@ -413,6 +413,22 @@ def witness(f, which, claims, claim, budget=200000):
 # ------------------------------------------------------------------ library model, classification, claims
 
 NSHARDS = 12
+
+# Reviewed residue: vector registers an AES entry point may leave written because what they hold is
+# not key material.  (symbol regex, {register: width}, justification).  Cross-checked by the dynamic
+# half (the secrets scan must not find anything in them).
+RESIDUE = [
+    (r"^_aes_cbc_dec_(128|192|256)_(sse|avx)$", {r: 1 for r in range(8, 15)},
+     "xmm8-xmm14 = xiv0..xiv6 of aes_cbc_dec_by8_{sse,avx}.inc: copies of ciphertext blocks kept as CBC chaining "
+     "values; the macro's own SAFE_DATA block clears xdata0-7 and xkeytmp (everything key-derived) and says so"),
+]
+
+
+def residue_of(name):
+    for rx, regs, why in RESIDUE:
+        if re.match(rx, name):
+            return [regs.get(r, 0) for r in range(32)], why
+    return None, None
 
 
 def library(variant="plain"):
@@ -568,7 +584,8 @@ def predicted_failing(lib):
         if not okg:
             g.append(k)
         if lib.aes[k]:
-            okv = py_check(f, "v", lib.claims, c) and all(x == 0 for x in c["vd"])
+            res = residue_of(lib.names[k])[0] or [0] * 32
+            okv = py_check(f, "v", lib.claims, c) and all(x <= y for x, y in zip(c["vd"], res))
             if not okv:
                 v.append(k)
     return g, v
@@ -612,8 +629,13 @@ def gen(lib=None):
         "(* an entry point must keep the SysV callee-saved set; a routine reached only by `call` from\n"
         "   assembly (custom convention) must keep what it claims *)\n"
         "Definition chk19 (f : func) : bool := if mem_pos entry_ids (fid f) then check_c19 claims f else check_gclaim claims f.\n"
-        "Definition chk14 (f : func) : bool := negb (mem_pos aes_ids (fid f)) || check_c14 claims f.\n"
-        % (coq_list(entry), coq_list(aes)))
+        "(* reviewed residue (checks/abistatic.py RESIDUE): registers that keep ciphertext, per width *)\n"
+        "Definition residue_list : list (positive * list nat) := %s.\n"
+        "Definition chk14 (f : func) : bool :=\n  negb (mem_pos aes_ids (fid f)) ||\n"
+        "  match lookup_res residue_list (fid f) with Some res => check_c14r claims res f | None => check_c14 claims f end.\n"
+        % (coq_list(entry), coq_list(aes),
+           coq_list("(%d, %s%%nat)" % (lib.fid[k], coq_list(str(x) for x in residue_of(lib.names[k])[0]))
+                    for k in lib.keys if lib.aes[k] and residue_of(lib.names[k])[0])))
     # shards balanced by size
     size = lambda k: 4 * len(lib.funcs[k].blocks) + sum(len(b["g"]) + len(b["v"]) for b in lib.funcs[k].blocks)
     shards = [[] for _ in range(NSHARDS)]
@@ -634,8 +656,8 @@ def gen(lib=None):
             "Lemma c14_failing : failing chk14 funcs = %s.\nProof. vm_cast_no_check (eq_refl (%s : list positive)). Qed.\n"
             % (coq_list(fl), coq_list(fl), coq_list(vl), coq_list(vl)))
     names = ["AbiGen%02d" % j for j in range(NSHARDS)]
-    gf = coq_list(str(lib.fid[k]) for k in sorted(gfail, key=lambda k: lib.fid[k]))
-    vf = coq_list(str(lib.fid[k]) for k in sorted(vfail, key=lambda k: lib.fid[k]))
+    gf = coq_list(str(lib.fid[k]) for ks in shards for k in ks if k in gfail)     # shard order
+    vf = coq_list(str(lib.fid[k]) for ks in shards for k in ks if k in vfail)
     files["Gen/AbiGenAll.v"] = (HEADER % (" Gen.AbiGenClaims Proofs.AbiCfgTables " + " ".join("Gen." + n for n in names)) +
         "Definition all_funcs : list func := %s.\n" % " ++ ".join(n + ".funcs" for n in names) +
         "Local Open Scope positive_scope.\n"
@@ -645,3 +667,195 @@ def gen(lib=None):
         "Lemma c14_table : failing chk14 all_funcs = c14_unproved.\nProof. unfold all_funcs. rewrite !failing_app, %s. reflexivity. Qed.\n"
         % ", ".join(n + ".c14_failing" for n in names))
     return files
+
+# ------------------------------------------------------------------ the check (shared by c19.py / c14.py)
+
+def classify_g(lib, k):
+    """why the GPR/stack checker rejects function k: ('violation', witness) when a single path (no
+    joins) shows a definite breach, ('domain', reason) when the function is outside the abstract
+    domain (listed as dynamic-only)"""
+    f, c = lib.funcs[k], lib.claims[k]
+    want = dict(c)
+    if lib.kind[k] == "entry":
+        want["pres"] = c["pres"] | ABI_SAVED
+    fail = c["gfail"]
+    if fail and fail[0] == "insn":
+        n, insn, st = fail[2]
+        op = insn[0]
+        if op == "GCtl":
+            return "violation", {"problem": "writes MXCSR / x87 control word", "exit_block": "%x" % f.blocks[fail[1]]["addr"]}
+        if op == "GStore" and st.ar[insn[1]] not in ("T", "ST") and stackish_base(st.ar[insn[1]][1]):
+            v = st.ar[insn[1]]
+            u = upper(st, v[1], v[2] + insn[2])
+            if u is not None and u + insn[3] > 0:
+                return "violation", {"problem": "store of %d bytes at entry_rsp%+d: at or above the entry stack pointer" % (insn[3], u),
+                                     "exit_block": "%x" % f.blocks[fail[1]]["addr"]}
+        why = {"GStore": "store through a computed stack address (%s = %s)" % (GPR[insn[1]] if op == "GStore" else "", show(st.ar[insn[1]]) if op == "GStore" else ""),
+               "GStoreNS": "indexed store whose address registers include a stack-derived value",
+               "GUnknown": "instruction outside the translator's tables",
+               "GCall": "call with a stack-derived value in a register, or rsp not tracked",
+               }.get(op, "%s not admissible (stack pointer not tracked)" % op)
+        return "domain", "%s in block %x" % (why, f.blocks[fail[1]]["addr"])
+    if fail:
+        return "domain", "analysis did not converge / control flow not understood (%s)" % fail[0]
+    w = witness(f, "g", lib.claims, want)
+    if w is None:
+        return "domain", "the join over paths loses a saved register (no single violating path within the search bound)"
+    # a register that is merely UNKNOWN at the exit of this single path is a definite breach only if the last
+    # thing written to it on the path was a computation / call result; if it was reloaded from a stack slot
+    # whose content the domain lost, the function is outside the domain
+    lw = last_writers(f, w["path_idx"], lib.claims)
+
+    def soft(p):
+        reg = p.split(" = ")[0]
+        return "unknown" in p and reg in GPR and lw.get(GPR.index(reg)) in ("GLoad", "GPop")
+    probs = w["problem"].split("; ")
+    if all(soft(p) for p in probs):
+        return "domain", "on path %s: %s (reloaded from a slot whose content the domain lost)" % ("->".join(w["blocks"][-4:]), w["problem"])
+    return "violation", w
+
+
+def last_writers(f, path_blocks, claims):
+    """replay a block path and remember which abstract instruction wrote each GPR last"""
+    lw = {}
+    for b in path_blocks:
+        for i in f.blocks[b]["g"]:
+            op = i[0]
+            if op in ("GMov", "GLea", "GLoad", "GAlign", "GPop"):
+                lw[i[1]] = op
+            elif op == "GClob":
+                for r in range(16):
+                    if (i[1] >> r) & 1:
+                        lw[r] = op
+            elif op == "GCall":
+                pres = claims[i[1]]["pres"] if i[1] in claims else 0
+                for r in range(16):
+                    if not (pres >> r) & 1:
+                        lw[r] = op
+    return lw
+
+
+def static_part(rep, pid):
+    """regenerate the tables, build the Coq obligations, record per-symbol obligations.
+    -> (lib, list of static findings [dict], coq_ok)"""
+    t0 = time.time()
+    lib = library()
+    files = gen(lib)
+    ok, broken = vlib.coq_step(rep, pid, files, timeout=900)
+    gfail, vfail = predicted_failing(lib)
+    findings, dyn_only = [], []
+    sel = (lambda k: True) if pid == "C19" else (lambda k: lib.aes[k])
+    for k in lib.keys:
+        if not sel(k):
+            continue
+        name = lib.names[k]
+        rep.case((k[0], name, len(lib.funcs[k].blocks)), len(lib.funcs[k].blocks) > 1 or lib.funcs[k].ninsn > 2)
+        if pid == "C19":
+            bad = k in gfail
+            detail = ""
+            if bad:
+                kind, info = classify_g(lib, k)
+                if kind == "violation":
+                    findings.append({"symbol": name, "object": k[0], "kind": "callee-saved-state",
+                                     "entry_kind": lib.kind[k], "witness": info})
+                    detail = "VIOLATION candidate: %s" % (info.get("problem") if isinstance(info, dict) else info)
+                else:
+                    dyn_only.append({"symbol": name, "object": k[0], "entry_kind": lib.kind[k], "reason": info})
+                    detail = "dynamic-only: " + str(info)
+            rep.obligation("check_%s %s:%s" % ("c19" if lib.kind[k] == "entry" else "gclaim", k[0], name), ok and not bad, detail)
+        else:
+            bad = k in vfail
+            detail = ""
+            if bad:
+                res = residue_of(name)[0] or [0] * 32
+                w = witness(lib.funcs[k], "v", lib.claims, {"vd": res}) or {"problem": "dirty at exit (join)", "blocks": []}
+                findings.append({"symbol": name, "object": k[0], "kind": "vector-not-cleared", "witness": w,
+                                 "registers": [r for r in range(32) if lib.claims[k]["vd"][r] > res[r]]})
+                detail = "VIOLATION candidate: " + w["problem"]
+            rep.obligation("check_c14 %s:%s" % (k[0], name), ok and not bad, detail)
+    nsel = sum(1 for k in lib.keys if sel(k))
+    rep.notes["symbols"] = {"objects_nasm": lib.nobj, "functions": len(lib.keys), "checked_for_this_property": nsel,
+                            "entry_points": sum(1 for k in lib.keys if lib.kind[k] == "entry"),
+                            "internal_custom_convention": sum(1 for k in lib.keys if lib.kind[k] == "internal"),
+                            "aes_symbols": sum(1 for k in lib.keys if lib.aes[k]),
+                            "machine_instructions_reached": sum(f.ninsn for f in lib.funcs.values()),
+                            "basic_blocks": sum(len(f.blocks) for f in lib.funcs.values()),
+                            "abstract_instructions": sum(len(b["g"]) + len(b["v"]) for f in lib.funcs.values() for b in f.blocks),
+                            "data_symbols_in_text_skipped": lib.info["data_in_text"],
+                            "gcc_objects_dynamic_only": len(lib.info["c_objects"]),
+                            "translate_s": lib.translate_s}
+    rep.notes["dynamic_only"] = dyn_only
+    rep.notes["static_unproved"] = findings
+    if pid == "C14":
+        rep.notes["residue_table"] = [{"symbols": rx, "registers": sorted(regs), "why": why} for rx, regs, why in RESIDUE]
+    else:
+        rep.notes["internal_claims"] = {lib.names[k]: [GPR[r] for r in range(16) if (lib.claims[k]["pres"] >> r) & 1]
+                                        for k in lib.keys if lib.kind[k] == "internal" and "dispatch_init" not in lib.names[k]}
+    for k in lib.keys[:400:60]:
+        rep.sample({"symbol": lib.names[k], "object": k[0], "kind": lib.kind[k], "blocks": len(lib.funcs[k].blocks),
+                    "preserved": [GPR[r] for r in range(16) if (lib.claims[k]["pres"] >> r) & 1],
+                    "vector_dirt_at_exit": [r for r in range(32) if lib.claims[k]["vd"][r]]})
+    rep.notes["static_wall_s"] = round(time.time() - t0, 1)
+    return lib, findings, ok, broken
+
+
+def run_check(pid, tier, replay=None):
+    rep = vlib.Report(pid, "proof", tier,
+                      "cd coq && make Properties/%s.vo  (coqc 8.16.1, full .vo build; per-symbol obligations by vm_compute in Gen/AbiGen*.v)" % pid)
+    lib, findings, ok, broken = static_part(rep, pid)
+    # dynamic half (colleague's module); the static findings are passed through rep.notes["static_unproved"]
+    dyn = "not available (checks/tramp.py not importable): static half only"
+    before = len(rep.violations)
+    known_before = len(rep.known_hits)
+    try:
+        if os.environ.get("ABI_STATIC_ONLY"):
+            raise ImportError("ABI_STATIC_ONLY set")
+        from checks import tramp
+        fn = getattr(tramp, "dynamic_c19" if pid == "C19" else "dynamic_c14", None)
+        if fn is None:
+            dyn = "checks/tramp.py has no dynamic_%s: static half only" % pid.lower()
+        else:
+            fn(rep, tier)
+            dyn = "ran (checks/tramp.py)"
+    except ImportError as e:
+        dyn = "not available (%s): static half only" % e
+    rep.notes["dynamic_half"] = dyn
+    dyn_text = json.dumps([v[1] for v in rep.violations[before:]], default=str) + json.dumps(rep.known_hits[known_before:], default=str)
+    for fd in findings:
+        confirmed = ('"%s"' % fd["symbol"]) in dyn_text or (fd["symbol"].lstrip("_") + '"') in dyn_text
+        what = "%s %s (%s): %s; path (block addresses) %s" % (
+            "static check_c19" if pid == "C19" else "static check_c14", fd["symbol"], fd["object"],
+            fd["witness"].get("problem"), "->".join(fd["witness"].get("blocks", [])[-12:]))
+        sig = {"symbol": fd["symbol"], "kind": fd["kind"], "object": fd["object"]}
+        if confirmed:
+            rep.notes.setdefault("static_confirmed_by_dynamic", []).append(fd["symbol"])
+            if rep.match_known(sig) is not None:
+                rep.violation(what, {"static": fd}, sig)      # records the known finding, suppresses nothing else
+            continue
+        rep.violation(what, {"theorem": "Properties/%s.v: %s (symbol listed in %s_unproved)" % (
+                          pid, "C19_entry_points" if pid == "C19" else "C14_aes_entry_points", pid.lower()),
+                      "static": fd, "dynamic_half": dyn}, sig, no_input=True)
+    if not ok:
+        rep.violation("Coq obligations of %s do not build: %s" % (pid, broken),
+                      {"theorem_or_file": broken, "note": "the generated per-shard lemmas state the verdicts predicted by the Python port; "
+                       "a disagreement between port and verified checker, or a broken proof, lands here"}, no_input=True)
+    rep.cov["rule"] = ("one obligation per function symbol of the nasm-assembled objects (every global text symbol, every function-pointer target in a "
+                       "data section, every direct call target): the verified checker (check_c19 / check_gclaim / check_c14) run by vm_compute on the CFG "
+                       "regenerated from the built object; evaluations = functions analysed; non-trivial = more than one block or more than two instructions")
+    rep.notes["input_distribution"] = {"kind": "static: all paths of all listed symbols (no inputs are drawn)",
+                                       "blocks_per_function_histogram": _hist([len(f.blocks) for f in lib.funcs.values()])}
+    rep.assumptions = [
+        "translator tr/abicfg.py: write set of each mnemonic (first-operand rule + table of implicit writers; unknown => rejected), projection of basic blocks, CFG from direct branches",
+        "(A1) stores through addresses not derived from the function's own rsp do not alias its frame (C08); (A2) loads through such addresses and callee results are not frame pointers; (A3) calls behave as the callee's checked claim says",
+        "gcc-compiled C objects (%d) and the functions listed under dynamic_only are covered by the dynamic half only" % len(lib.info["c_objects"]),
+        "C14: 'clean' means 'not written by this function, or cleared after the last write'; the residue table (ciphertext registers) is hand-reviewed; dead-stack residue is dynamic-only",
+    ]
+    return rep.finish()
+
+
+def _hist(xs):
+    out = {}
+    for x in xs:
+        b = "1" if x == 1 else "2-9" if x < 10 else "10-99" if x < 100 else "100+"
+        out[b] = out.get(b, 0) + 1
+    return out
